@@ -106,6 +106,11 @@ CONFIGS = [
         atoms=("a1",), nreg=2, keys=("k1", "k2"), maxsize=30, maxt=1, inv=("WellFormedInv",), props=("C11Prop",),
         policies="{<<1, <<<<2, 2>>>>>>, <<1, <<<<1, 2>>>>>>, <<2, <<<<1, 1>>, <<1, 1>>>>>>}",
         shapes="{Leaf(V(\"a1\"))}"),
+    # three registers: shares of two splits presented in every order, also interleaved
+    cfg("sskr_mix3_q", [["build"], ["encrypt"], ["sskr_pick"], ["sskr_pick"], ["sskr_pick"], ["sskr_join"]],
+        atoms=("a1",), nreg=3, keys=("k1",), maxsize=30, maxt=1, inv=("WellFormedInv",), props=("C11Prop",),
+        policies="{<<1, <<<<2, 2>>>>>>}",
+        shapes="{Leaf(V(\"a1\"))}"),
     # inclusion proofs (C12)
     cfg("proof_q", [["build"], ["build", "proof", "compressone"], ["proof", "elideset"], ["confirm"]],
         nreg=2, maxsize=12, maxt=2, inv=("WellFormedInv",), props=("C12Prop",),
